@@ -231,4 +231,144 @@ theorem low_facets_glued {ds : DSymData} (hs : ValidSym ds) (hdim : 1 ≤ ds.dim
       have := F.sat x k j hr hne hv1 (fun t' ht' => hTmin t' (by omega)) hp
       rcases this with h' | h' <;> cases h'
 
+/-- orbit length and branching number the symbol reports for a pair of far indices whose
+    operations differ at the chamber -/
+theorem far_rv {ds : DSymData} {i a e : Nat} (hfar : a + 1 < i) (hi : i ≤ ds.dim) (h1 : 1 ≤ e)
+    (h2 : e ≤ ds.size) (hne : ds.dset.opU i e ≠ ds.dset.opU a e) :
+    orbR ds i a e = 2 ∧ orbV ds i a e = 1 := by
+  have hor : ds.outOfRange i a e = false := by
+    unfold DSymData.outOfRange
+    simp only [Bool.or_eq_false_iff, decide_eq_false_iff_not]
+    omega
+  have hop : ¬ ds.op i e = ds.op a e := by
+    rw [op_eq hi h1 h2, op_eq (by omega) h1 h2]
+    exact fun h => hne (Option.some.inj h)
+  have n1 : ¬ a = i := by omega
+  have n2 : ¬ a = i + 1 := by omega
+  have n3 : ¬ i = a + 1 := by omega
+  unfold orbR orbV DSymData.rPartial DSymData.vPartial
+  rw [hor]
+  simp [n1, n2, n3, hop]
+
+/-- **the glued 3-facets come in whole faces**: if the 3-facet of `x` is glued at the end, so is
+    the 3-facet of `s_a x` for `a = 0, 1` -/
+theorem wall_faces {ds : DSymData} (hs : ValidSym ds) (hdim : 3 ≤ ds.dim)
+    (hv01 : ∀ x, 1 ≤ x → x ≤ ds.size → orbV ds 0 1 x = 1) {m' : OppMap} {out : List Item}
+    (F : Final ds m' out) {x a : Nat} (ha : a ≤ 1) (hx1 : 1 ≤ x) (hx2 : x ≤ ds.size)
+    (hg : Glued ds m' x 3) : Glued ds m' (opT ds a x) 3 := by
+  have hv := hs.set
+  have hd1 : 1 ≤ ds.dim := by omega
+  have hx3 : FacetR ds x 3 := ⟨hx1, hx2, hdim⟩
+  have r3 : Rng ds (x, 3, a) := mkRng hx1 hx2 hdim (by omega) (by omega)
+  have h3ne : opT ds 3 x ≠ x := F.gnm _ r3 (hg a r3)
+  by_cases h0 : opT ds a x = x
+  · rw [h0]; exact hg
+  by_cases h1 : opT ds a x = opT ds 3 x
+  · rw [h1]; exact glued_other hv F.inv hx3 hg
+  have hc : ∀ y, 1 ≤ y → y ≤ ds.size → opT ds 3 (opT ds a y) = opT ds a (opT ds 3 y) := by
+    intro y hy1 hy2
+    have ra := opT_range hv (a := a) hy1 hy2
+    have rb := opT_range hv (a := 3) hy1 hy2
+    rw [opT_eq (by omega) hy1 hy2, opT_eq hdim hy1 hy2] at *
+    rw [opT_eq hdim ra.1 ra.2, opT_eq (by omega) rb.1 rb.2]
+    exact hs.far a 3 y (by omega) hdim hy1 hy2
+  have her := opT_range hv (a := a) hx1 hx2
+  have hxr3 := opT_range hv (a := 3) hx1 hx2
+  have hae : opT ds a (opT ds a x) = x := opT_invol hv a x
+  -- the facets of the (a,3)-orbit of `s_a x`
+  have he3 : opT ds 3 (opT ds a x) ≠ opT ds a x := by
+    rw [hc x hx1 hx2]
+    intro e
+    have := congrArg (opT ds a) e
+    rw [opT_invol hv, opT_invol hv] at this
+    exact h3ne this
+  have hfar : ds.dset.opU 3 (opT ds a x) ≠ ds.dset.opU a (opT ds a x) := by
+    rw [← opT_eq hdim her.1 her.2, ← opT_eq (by omega) her.1 her.2, hae, hc x hx1 hx2]
+    intro e
+    have := congrArg (opT ds a) e
+    rw [opT_invol hv] at this
+    exact h1 this.symm
+  obtain ⟨hR, hV⟩ := far_rv (show a + 1 < 3 by omega) hdim her.1 her.2 hfar
+  have re : Rng ds (opT ds a x, 3, a) := mkRng her.1 her.2 hdim (by omega) (by omega)
+  have g0 : Glued ds m' (opT ds a x) a :=
+    low_facets_glued hs hd1 hv01 F ha her.1 her.2 (by rw [hae]; exact fun e => h0 e.symm)
+  have g2 : Glued ds m' (opT ds 3 x) a :=
+    low_facets_glued hs hd1 hv01 F ha hxr3.1 hxr3.2 (by
+      rw [← hc x hx1 hx2]
+      intro e
+      have := congrArg (opT ds 3) e
+      rw [opT_invol hv, opT_invol hv] at this
+      exact h0 this)
+  have c0 : crossR ds (opT ds a x) 3 a 0 = (opT ds a x, a, 3) := rfl
+  have c1 : crossR ds (opT ds a x) 3 a 1 = (x, 3, a) := by
+    show (opT ds a (opT ds a x), _, _) = _
+    rw [hae]; rfl
+  have c2 : crossR ds (opT ds a x) 3 a 2 = (opT ds 3 x, a, 3) := by
+    show (opT ds 3 (opT ds a (opT ds a x)), _, _) = _
+    rw [hae]; rfl
+  have hall : ∀ t, t + 1 < 2 * orbR ds 3 a (opT ds a x) →
+      oppGet m' (crossR ds (opT ds a x) 3 a t) = none := by
+    intro t ht
+    rw [hR] at ht
+    have : t = 0 ∨ t = 1 ∨ t = 2 := by omega
+    rcases this with rfl | rfl | rfl
+    · rw [c0]; exact g0 3 (mkRng her.1 her.2 (by omega) hdim (by omega))
+    · rw [c1]; exact hg a r3
+    · rw [c2]; exact g2 3 (mkRng hxr3.1 hxr3.2 (by omega) hdim (by omega))
+  have hnone : oppGet m' (opT ds a x, 3, a) = none := by
+    by_contra hp
+    rcases F.sat _ 3 a re he3 hV hall hp with h' | h' <;> cases h'
+  exact unif_glued F.unif re hnone
+
+/-- chamber `x` lies on one of the reported inner 3-facets -/
+def OnInnerWall (ds : DSymData) (inner : List Edge) (x : Nat) : Prop :=
+  ∃ e ∈ inner, e.2 = 3 ∧ (x = e.1 ∨ x = ds.dset.opU 3 e.1)
+
+/-- **the inner 3-facets reported by `inner_edges` come in whole faces** -/
+theorem innerEdges_walls {ds : DSymData} (hs : ValidSym ds) (hdim : 3 ≤ ds.dim)
+    (hv01 : ∀ x, 1 ≤ x → x ≤ ds.size → orbV ds 0 1 x = 1) {inner : List Edge}
+    (h : innerEdges ds = .ok inner) :
+    (∀ e ∈ inner, FacetR ds e.1 e.2) ∧
+    ∀ x, OnInnerWall ds inner x → ∀ a, a ≤ 1 → OnInnerWall ds inner (ds.dset.opU a x) := by
+  have hv := hs.set
+  unfold innerEdges at h
+  cases hg : glueRecursively ds (boundaryNew ds) (spanningTree ds) with
+  | err => rw [hg] at h; cases h
+  | panic => rw [hg] at h; cases h
+  | ok p =>
+    obtain ⟨m', out⟩ := p
+    rw [hg] at h
+    simp only at h
+    injection h with h
+    subst h
+    have F := final_state hs (by omega) hg
+    refine ⟨?_, ?_⟩
+    · intro e he
+      obtain ⟨it, hit, rfl⟩ := List.mem_map.1 he
+      exact (F.done it hit).1
+    · rintro x ⟨e, he, he3, hx⟩ a ha
+      obtain ⟨it, hit, rfl⟩ := List.mem_map.1 he
+      simp only at he3 hx
+      obtain ⟨hf, g1, g2⟩ := F.done it hit
+      rw [he3] at hf g1 g2
+      have hxg : (1 ≤ x ∧ x ≤ ds.size) ∧ Glued ds m' x 3 := by
+        rcases hx with rfl | rfl
+        · exact ⟨⟨hf.1, hf.2.1⟩, g1⟩
+        · exact ⟨hv.range 3 it.1 hf.2.2 hf.1 hf.2.1, g2⟩
+      obtain ⟨⟨hx1, hx2⟩, hxg⟩ := hxg
+      have hw := wall_faces hs hdim hv01 F ha hx1 hx2 hxg
+      rw [opT_eq (by omega) hx1 hx2] at hw
+      have hr := hv.range a x (show a ≤ ds.dim by omega) hx1 hx2
+      obtain ⟨it', hit', ht⟩ := F.known _ 3 ⟨hr.1, hr.2, hdim⟩ hw
+      refine ⟨(it'.1, it'.2.1), List.mem_map.2 ⟨it', hit', rfl⟩, ?_⟩
+      rcases ht with ht | ht
+      · have e1 : ds.dset.opU a x = it'.1 := congrArg Prod.fst ht
+        have e2 : 3 = it'.2.1 := congrArg Prod.snd ht
+        exact ⟨e2.symm, Or.inl e1⟩
+      · have e1 : ds.dset.opU a x = ds.dset.opU it'.2.1 it'.1 := congrArg Prod.fst ht
+        have e2 : 3 = it'.2.1 := congrArg Prod.snd ht
+        refine ⟨e2.symm, Or.inr ?_⟩
+        simp only
+        rw [e1, ← e2]
+
 end DSymVerif.FGP
